@@ -27,6 +27,7 @@ def layout(fb, suffix):
 HDR = {'magic': 'magic', 'segsize': 'segsize', 'version': 'version', 'generation': 'generation'}   # role -> field name, see OpenModel
 
 
+MAGIC_PARTS = {}           # word index -> constant it is compared with, for word-by-word comparisons
 MAGIC_COMPARED = []        # the constant words the open path compares the magic field with (filled by name_atom)
 
 
@@ -129,6 +130,12 @@ def name_atom(term, hdr_size, full_size, lower=None, effects=None):
                         continue
                     return (atom, neg)
     if op in ('Eq', 'Ne', 'eq', 'ne') and len(term[2]) == 2:
+        # one word of the magic compared with a constant (`magic[0] == M[0] && magic[1] == M[1]`, in any order): each is
+        # the magic check; together they must cover both documented words (collected in MAGIC_PARTS)
+        for x, y in (term[2], term[2][::-1]):
+            if x[0] == 't' and x[1] == 'field' and str(x[2][1]).isdigit() and fmt(x[2][0]).endswith('.%s' % HDR['magic']) and psi.is_int_const(y):
+                MAGIC_PARTS[int(x[2][1])] = y[1]
+                return ('magic==SHM_MAGIC', op in ('Eq', 'eq'))
         # the magic words compared as a whole (`==` on the pair, or word by word with any bit-trick spelling, which the
         # engine reduces to one equality): record what they are compared with
         for x, y in (term[2], term[2][::-1]):
@@ -143,8 +150,11 @@ def name_atom(term, hdr_size, full_size, lower=None, effects=None):
         sa = fmt(a)
         if 'open#' in sa and 'read#' not in sa and 'mmap#' not in sa and op == 'Lt' and cb == 0:
             return ('open<0', False)
-        if 'mmap#' in sa and op == 'Eq':
+        sb_ = fmt(b)
+        if ('mmap#' in sa or ('mmap#' in sb_ and ca is not None)) and op == 'Eq':
             return ('mmap==MAP_FAILED', False)
+        if ('mmap#' in sa or ('mmap#' in sb_ and ca is not None)) and op == 'Ne':
+            return ('mmap==MAP_FAILED', True)
         if 'read#' in sa and 'mmap#' not in sa and op == 'Lt' and cb == 0:
             return ('read<0', False)
         if 'read#' in sa and 'mmap#' not in sa and op == 'Lt' and cb is not None:
@@ -221,6 +231,7 @@ class OpenModel:
             chk.analysed['functions'].add(p)
         self.rows = []
         del MAGIC_COMPARED[:]
+        MAGIC_PARTS.clear()
         for p in self.paths:
             atoms = []
             unknown = []
@@ -229,6 +240,11 @@ class OpenModel:
             for term, op, val, _ in p.conds:
                 t = truth_of(op, val)
                 a = name_atom(term, self.hdr_size, self.hdr_size + self.rec_size, lower, p.effects)
+                if t is True and term[0] == 't' and term[1] in ('Eq', 'Gt') and len(term[2]) == 2 and psi.is_int_const(term[2][1]) and \
+                        term[2][1][1] in (self.hdr_size, self.hdr_size + self.rec_size) and \
+                        (HDR['segsize'] in fmt(term[2][0]) or 'segsize' in fmt(term[2][0])):
+                    # an arm of a three-way `match size.cmp(&K)`: on `== K` and on `> K` the path knows `size >= K`
+                    a = ('segsize>=%d' % term[2][1][1], True)
                 if a is not None and t is not None and a[0].startswith('segsize>=') and t == a[1]:
                     lower = max(lower or 0, int(a[0][len('segsize>='):]))
                 if a is None and term[0] == 't' and term[1] == 'call' and 'atomic' in term[2][0] and term[2][0].endswith('::load'):
@@ -240,11 +256,20 @@ class OpenModel:
                 if a is None or t is None:
                     unknown.append(psi.fmt_cond((term, op, val, None))[:100])
                     continue
-                if a[0].startswith('read<header') and t != a[1] and ('read<0', True) not in atoms and _signed_read_compare(term):
+                if a[0].startswith('read<header') and t != a[1] and _signed_read_compare(term):
                     # `ret < size` on the *signed* return value, taken before (or without) the `ret < 0` test: a failed read
                     # (-1) is "short" too and leaves through this exit
                     signed_short.append(psi.fmt_cond((term, op, val, None))[:100])
                 atoms.append((a[0], t == a[1]))      # (name, passed?)
+                if a[0].startswith('read<header') and t == a[1] and _signed_read_compare(term) and not any(x_ == 'read<0' for x_, _ in atoms):
+                    atoms.append(('read<0', True))   # a *signed* `n >= 16` that holds says `n >= 0` too
+            if any(a_ == 'read<0' for a_, _ in atoms):
+                # the sign is tested on this very path (before or after the length): either -1 cannot be here, or this is
+                # the exit for it
+                signed_short = []
+            if ('read<0', False) in atoms:
+                # a failed read is trivially "short" as well when the length test is signed: the sign decides
+                atoms = [(a_, p_) for a_, p_ in atoms if not (a_.startswith('read<header') and not p_)]
             res = None
             if p.kind == 'return' and p.value[0] == 'agg':
                 res = ('Ok',) if p.value[2] == 'Ok' else err_kind(p.value[3][0])
@@ -252,5 +277,7 @@ class OpenModel:
             adds = [ef for ef in p.effects if ef['kind'] == 'call' and ef['callee'].startswith('std::ptr::') and ef['callee'].endswith(common.PTR_ADVANCE)]
             self.fb = fb
             self.rows.append({'path': p, 'atoms': atoms, 'unknown': unknown, 'result': res, 'adds': adds, 'signed_short': signed_short})
+        if MAGIC_PARTS and set(MAGIC_PARTS) == set(range(len(MAGIC_PARTS))):
+            MAGIC_COMPARED.append(tuple(MAGIC_PARTS[k] for k in sorted(MAGIC_PARTS)))
         self.magic_compared = sorted(set(MAGIC_COMPARED))
         self.ok = True
